@@ -463,7 +463,7 @@ bool genFiftyCase(Choices& c, UciCase& k) {
     if (!ref::sane(base) || ref::legalMoves(base).empty()) return false;
     int target = c.of(std::vector<int>{100, 100, 100, 99, 101, 104, 110, 98, 100, 95, 91, 100}); // half-move clock after m (when m is reversible)
     int sel = c.pick(8);
-    int byPlay = sel < 4 ? c.range(0, 3) : sel < 6 ? c.range(4, 12) : sel == 6 ? c.range(20, 27) : 27; // cycles of 4 plies (27: the clock comes from play alone)
+    int byPlay = sel < 3 ? c.range(0, 3) : sel < 5 ? c.range(4, 12) : sel < 7 ? c.range(20, 27) : 27; // cycles of 4 plies (27: the clock comes from play alone)
     bool longPlay = sel == 7;
     if (longPlay) target = c.of(std::vector<int>{110, 106, 110, 107}); // more than 100 history plies: texel then drops its hash list
     int h0 = target - 1 - 4 * byPlay;
@@ -880,9 +880,9 @@ int main(int argc, char** argv) {
                 runAndJudgeUci(k, st, false);
             });
         };
-        uciProp("uci-rep", nu * 5 / 10, 3.0, genRepCase);
-        uciProp("uci-fifty", nu * 3 / 10, 3.0, genFiftyCase);
-        uciProp("uci-shuffle", nu - nu * 5 / 10 - nu * 3 / 10, 3.0, genShuffleCase);
+        uciProp("uci-rep", nu * 5 / 10, 8.0, genRepCase);
+        uciProp("uci-fifty", nu * 3 / 10, 8.0, genFiftyCase);
+        uciProp("uci-shuffle", nu - nu * 5 / 10 - nu * 3 / 10, 8.0, genShuffleCase);
         gSession.drop();
         vh::runProp("game", ng, 6.0, [&](Choices& c) {
             std::vector<Cmd> cmds; SeqCfg cfg; SeqStats ss;
